@@ -4,6 +4,7 @@ import SctpVerif.Proofs.NetSys.LiveRoundOk
 import SctpVerif.Proofs.NetSys.LiveHonest
 import SctpVerif.Proofs.NetSys.LiveHonestN
 import SctpVerif.Proofs.NetSys.LiveZ
+import SctpVerif.Proofs.NetSys.LiveNoCap
 import SctpVerif.Props.C01sel
 /-!
 # C02 on the composed model — the receiver's own SACKs make the sender-side progress theorems applicable
@@ -78,14 +79,17 @@ preserved along the healed rounds because the SACK a round hands to the sender i
 (`truthful_sound`, `hl_healed`); per-round premises `RoundOkHN` = receiver established, `Room`, `Normal` (receive queue
 pop-normalised), `HeadOk`. (d), partly: `C02_netsys_entry_cap_off_partial` — with `maxReassemblyQueueEntries = 0` every
 reassembly queue of every reachable state has `maxEntries = 0`, `pushWithError` returns no limit error and never panics, a
-chunk `acceptPayloadData` decides to store is stored. STILL OPEN: (d') assembling that into `Normal` as a run invariant (no
-bare `push` in a `handleData` trace ⇒ pop-normalised after every packet) and into `HeadOk` (additionally `willSendAbort =
-false` along the run and non-empty user data of every history chunk); (c) `Room` after the application has read everything
-readable from `FitsBuffer` (`maxMessageSize ≤ maxReceiveBufferSize`): needs the CONVERSE of `Reasm.OrdInv.pushed` — every pushed
-fragment of a message at or above the cursor is in the table — which also gives `reads = writes` at the end
-(`C02_netsys_all_read`, not stated). The strongest drain theorem is `C02_netsys_drains_honest`; its premises beyond the
-standing ones (MTU < 2^30, fragment size fits the MTU, < 2^31 chunks, reliable ordered streams, sound SACK history, sender
-established) are, per round: receiver established, `Room`, `Normal`, `HeadOk`.
+chunk `acceptPayloadData` decides to store is stored. **Fifth pass.** (d) is closed: `C02_netsys_nocap_invariants` — with `maxReassemblyQueueEntries = 0` the receive queue is
+pop-normalised in every reachable state (`run_normal`), and when every chunk of the history decodes to non-empty user data the
+receiver never raises the ABORT flag (`run_noabort`) — and `C02_netsys_drains_honest_nocap`, THE STRONGEST DRAIN THEOREM: its
+per-round premises are only "receiver established" and `Room`. Standing hypotheses: MTU < 2^30 (`CfgOk`), fragment size fits
+the MTU (`CfgFit`), `maxReassemblyQueueEntries = 0`, fewer than 2^31 chunks written / in flight (`chunksWritten`, `TsnOk`),
+reliable ordered streams (`Reliable`), sound SACK history (`Honest`), sender established, every chunk of the final history
+carries user data (`WireDataB`). STILL OPEN: (c) `Room` after the application has read everything readable from `FitsBuffer`
+(`maxMessageSize ≤ maxReceiveBufferSize`): needs the CONVERSE of `Reasm.OrdInv.pushed` — every pushed fragment of a message at or
+above the cursor is in the table — which also gives `reads = writes` at the end (`C02_netsys_drains_fits`,
+`C02_netsys_all_read`: NOT stated); `WireDataB` from the sender model (a written fragment has `0 < len` and lies inside the
+written payload: `toWire_data` of the C01 proof) is assumed, not derived.
 
 **NOT covered**: timers really firing and their back-off bounds ("within a few maximum RTOs": C19 gives the RTO clamp
 `C19_rto_clamp`-style bounds and the timer automaton; a healed round costs at most one T3 period ≤ `rtoMax` plus the 200 ms
@@ -360,6 +364,44 @@ theorem C02_netsys_entry_cap_off_partial (P : Params) (h0 : P.maxEntries = 0) (o
   · exact h
   · exact absurd h (Reasm.pushWithError_no_panic x.q c hne)
 
+/-- **Entry cap off: `Normal` and no ABORT are run invariants.** With `maxReassemblyQueueEntries = 0` (the default), in EVERY
+reachable NetSys state the receive queue is pop-normalised (`Normal`: the TSN right after the cumulative point is never left
+un-popped — no `handleData` trace is a bare `push`); and if every chunk of the history decodes to non-empty user data
+(`WireDataB`: every written fragment carries at least one byte), the receiver never raises the ABORT flag and never panics. -/
+theorem C02_netsys_nocap_invariants (P : Params) (h0 : P.maxEntries = 0) (ops : List Op) :
+    Normal (run P (init P) ops).rcv = true ∧
+    (WireDataB P (run P (init P) ops).wire = true →
+      (run P (init P) ops).rcv.willSendAbort = false ∧ (run P (init P) ops).rcv.panicked = false) := by
+  refine ⟨by simp only [Normal, Bool.not_eq_true']; exact run_normal P h0 ops, ?_⟩
+  intro hw
+  exact ⟨run_noabort P h0 ops (wireData_of_B P _ hw), (run_nb0 P h0 ops).2.2.1.1⟩
+
+/-- **The healed rounds drain the sender — entry cap off: only "receiver established" and `Room` remain per round.**
+`C02_netsys_drains_honest` with `Normal` and `HeadOk` discharged: `maxReassemblyQueueEntries = 0` and every chunk of the
+history (healed rounds included: `WireDataB` of the final history) decoding to non-empty user data. From every reachable
+NetSys state over reliable ordered streams whose sender only processed sound SACKs, sender established:
+`n ≥ pending + in-flight chunks` healed rounds, at the start of each of which (if something is outstanding) the receiver is
+established and has `Room` (credit, or something held above its cumulative point) — `RoundOkEN P n s` — end with both sender
+queues empty, `Association.BufferedAmount()` = 0, and every stream's `BufferedAmount()` = 0 under C15's D9 premise.
+`Room` is the one premise left: it follows from `FitsBuffer` and the reads of the round only with the reassembly-level
+completeness lemma (converse of `Reasm.OrdInv.pushed`), which is not proved; without it `C02_netsys_stuck_witness` applies. -/
+theorem C02_netsys_drains_honest_nocap (P : Params) (ops : List Op) (n : Nat) (hc : SenderProofs.CfgOk P.cfg)
+    (hf : SenderProofs.CfgFit P.cfg) (h0 : P.maxEntries = 0) (hN : chunksWritten P ops < 2^31) (hrel : Reliable ops = true)
+    (hts : SenderProofs.TsnOk (Sender.init P.cfg P.tsn P.peerRwnd) (sndOps P (init P).snd ops))
+    (hh : Honest P (init P) ops = true)
+    (hest : (run P (init P) ops).snd.established = true)
+    (hsm : (run P (init P) ops).snd.inflight.length + (run P (init P) ops).snd.pending.length < 2^31)
+    (hw : WireDataB P (run P (init P) (ops ++ healedRounds P n (run P (init P) ops))).wire = true)
+    (hok : RoundOkEN P n (run P (init P) ops) = true) (hn : outstanding (run P (init P) ops) ≤ n) :
+    let fin := run P (init P) (ops ++ healedRounds P n (run P (init P) ops))
+    fin = healedN P n (run P (init P) ops) ∧
+    fin.snd.inflight = [] ∧ fin.snd.pending = [] ∧ fin.snd.penBytes + fin.snd.infBytes = 0 ∧
+    (SenderProofs.RunOk (Sender.init P.cfg P.tsn P.peerRwnd)
+        (sndOps P (init P).snd (ops ++ healedRounds P n (run P (init P) ops))) →
+      fin.snd.wrapBuf = false → ∀ si, SenderProofs.bufOf fin.snd si = 0) :=
+  C02_netsys_drains_honest P ops n hc hf hN hrel hts hh hest hsm
+    (roundOkHN_of_nocap P h0 n ops (wireData_of_B P _ hw) hok) hn
+
 /-- **Safety along the healed rounds**: C01 for the run extended by any number of healed rounds — over reliable ordered
 streams with FIFO selection (the healed rounds select FIFO and open no stream), what the application has read on a stream is
 a prefix of what was written on it. (`C01_netsys_prefix_fifo` for the extended operation list; its hypotheses are
@@ -497,6 +539,20 @@ example :
 set_option maxRecDepth 1000000 in
 example : (Receiver.acceptPayloadData (run PD (init PD) ops0).rcv (toWire PD ((run PD (init PD) ops0).wire[0]!))).2 = true :=
   (C02_netsys_entry_cap_off_partial PD rfl ops0 _ (by decide)).2
+
+-- non-vacuity of `C02_netsys_nocap_invariants` and `C02_netsys_drains_honest_nocap` (n = 9): entry cap off, every chunk of
+-- the final history carries user data, `RoundOkEN` (receiver established, `Room`) decided on the run
+set_option maxRecDepth 1000000 in
+example : (run PD (init PD) ops0).rcv.willSendAbort = false ∧ (run PD (init PD) ops0).rcv.panicked = false :=
+  (C02_netsys_nocap_invariants PD rfl ops0).2 (by decide)
+
+set_option maxRecDepth 1000000 in
+example :
+    let fin := run PD (init PD) (ops0 ++ healedRounds PD 9 (run PD (init PD) ops0))
+    fin.snd.inflight = [] ∧ fin.snd.pending = [] ∧ fin.snd.penBytes + fin.snd.infBytes = 0 :=
+  let h := C02_netsys_drains_honest_nocap PD ops0 9 (by unfold SenderProofs.CfgOk; decide) (by unfold SenderProofs.CfgFit; decide)
+    rfl (by decide) (by decide) (by decide) (by decide) (by decide) (by decide) (by decide) (by decide) (by decide)
+  ⟨h.2.1, h.2.2.1, h.2.2.2.1⟩
 
 -- non-vacuity of `C02_netsys_delivered_prefix`
 set_option maxRecDepth 1000000 in
